@@ -1,28 +1,42 @@
-(* XCodegenBridge.v -- the interface `instr_at` of XCodegenExpr.v is what the assembler side establishes:
+(* XCodegenBridge.v -- the interface `instr_at` of XCodegenIsa.v is what the assembler side establishes:
    if the ISA's own decoder (AsmSpec.decode, proved to be Isa.step by AsmSpecProofs.decode_exec) reads
-   instruction i at [pos, nxt) of an image that every admissible memory holds, then instr_at holds there.  So
-   the code_at hypothesis of C01_expr_fragment_partial is discharged, instruction by instruction, for every
-   image the assembler validator (C05) accepts, as long as the frame temporaries lie outside the code. *)
+   instruction i (its opcode, and its operand -- for a branch the label's position relative to the next
+   instruction) at [pos, nxt) of an image that every admissible memory holds, then instr_at holds there.  So the
+   code_at hypotheses of the C01 fragment theorems are discharged, instruction by instruction, for every image
+   the assembler validator (C05) accepts, as long as the code is never stored to. *)
 From Coq Require Import ZArith List Lia.
-From HexVerif Require Import WMap Isa AsmSpec AsmSpecProofs XCodegenExpr.
+From HexVerif Require Import WMap Isa AsmSpec AsmSpecProofs XCodegenIsa.
 Import ListNotations.
 Local Open Scope Z_scope.
 
-Theorem instr_at_of_decode : forall (C : WMap.t -> Prop) img pos nxt i,
-  decode img pos = Some (fst (opcode i), snd (opcode i), nxt) ->
-  0 <= pos -> nxt <= W -> (forall m, C m -> holds m img pos nxt) -> instr_at C pos nxt i.
+Lemma decode_progress : forall fuel img pos o op ov nxt, decode_go fuel img pos o = Some (op, ov, nxt) -> pos < nxt.
 Proof.
-  intros C img pos nxt i Hd Hp Hn Hh. unfold decode in Hd. split.
-  - assert (Hlt : pos < nxt).
-    { clear - Hd. revert Hd. generalize 0 at 1. generalize 16%nat. intros fuel. revert pos.
-      induction fuel as [|f IH]; intros pos o Hd; [discriminate|]. cbn [decode_go] in Hd.
-      destruct ((rd img pos / 16 =? 14) || (rd img pos / 16 =? 15))%bool.
-      - specialize (IH _ _ Hd). lia.
-      - inversion Hd. lia. }
-    lia.
+  induction fuel as [|f IH]; intros img pos o op ov nxt Hd; [discriminate|]. cbn [decode_go] in Hd.
+  destruct ((rd img pos / 16 =? 14) || (rd img pos / 16 =? 15))%bool.
+  - specialize (IH _ _ _ _ _ _ Hd). lia.
+  - inversion Hd. lia.
+Qed.
+
+Lemma at_of_decode (C : WMap.t -> Prop) img pos nxt op ov :
+  decode img pos = Some (op, ov, nxt) -> 0 <= pos -> nxt <= W -> (forall m, C m -> holds m img pos nxt) ->
+  0 <= pos < nxt /\
+  forall m a b inp, C m -> exists s',
+    taus inp (mk pos a b 0 m) s' /\ pc s' = nxt - 1 /\ areg s' = a /\ breg s' = b /\ mem s' = m /\ at_byte s' op ov.
+Proof.
+  intros Hd Hp Hn Hh. unfold decode in Hd. split.
+  - pose proof (decode_progress _ _ _ _ _ _ _ Hd). lia.
   - intros m a b inp HC.
     destruct (decode_exec 16 img pos 0 _ _ nxt Hd (mk pos a b 0 m) inp eq_refl eq_refl Hp Hn (Hh m HC))
       as [_ (s' & Hrun & Hpc & Ha & Hb & Hm & Hin & Hop & _ & _ & Ho)].
     exists s'. split; [exists (Z.to_nat (nxt - pos - 1)); exact Hrun|].
     repeat split; assumption.
+Qed.
+
+Theorem instr_at_of_decode : forall (C : WMap.t -> Prop) (lab : label -> Z) img pos nxt i,
+  match i with LABEL _ => False | _ => True end ->
+  decode img pos = Some (opc i, operand lab nxt i, nxt) ->
+  0 <= pos -> nxt <= W -> (forall m, C m -> holds m img pos nxt) -> instr_at C lab pos nxt i.
+Proof.
+  intros C lab img pos nxt i Hi Hd Hp Hn Hh.
+  destruct i; try contradiction; cbn [instr_at]; eapply at_of_decode; eassumption.
 Qed.
